@@ -90,6 +90,39 @@ CHECKS = {
             "known pre-existing failures are listed in known_findings.json with witness predicates.",
             "exhaustive single-fault enumeration over entry points x fault kinds x positions, plus bounded "
             "exhaustive enumeration of valid boundary-coincidence states"),
+    "C08": (MC, "DESIGN.md §5 C08",
+            "Edge relations from every pair state of the adapters that define them: shift (a common, exactly "
+            "representable offset on both sides), permute (reorderings of unordered collections) and relabel "
+            "(label bijections per annotation); both end points are executed and all listed scores compared to "
+            "1e-12. Exhaustive within the stated bounds.",
+            "Shift edges only on dyadic lattices; beats kept >= the trim time; small-scope hypothesis.",
+            "bounded exhaustive enumeration of states with edge (two-execution) relations"),
+    "C09": (MC, "DESIGN.md §5 C09",
+            "Key: all key pairs x 12 transpositions x 2 spellings (complete). Chord: label panel (every quality "
+            "shorthand x bass/degree variants) x 12 joint transpositions x 2 spellings and the enharmonic "
+            "respelling alphabet on reference / estimate / both through all 12 comparison functions, plus "
+            "chord.evaluate on small sequences. Pitch: scaling / octave / negation edges from the melody, "
+            "multipitch and transcription adapters.",
+            "Pitch classes computed by the harness; pitch differences kept >= 1 cent from the tolerance.",
+            "complete enumeration (keys) / bounded exhaustive enumeration (chord labels, pitch edges) with edge "
+            "relations"),
+    "C12": (MC, "DESIGN.md §5 C12",
+            "weighted_accuracy on all comparison vectors x weight vectors x scalings against an exact closed form; "
+            "split edges (every cut of one interval at every interior half-cell point, same label or an equivalent "
+            "chord respelling) from every pair of labelled segmentations of the stated bounds for chord.evaluate, "
+            "the frame-based segment labelling scores and hierarchy.lmeasure. Exhaustive within bounds.",
+            "Dyadic cut points and frame sizes; respelling alphabet verified encoding-equivalent at start-up.",
+            "bounded exhaustive enumeration of states with refinement edges (two-execution relation) + closed form"),
+    "C20": (FE, "DESIGN.md §5 C20",
+            "About one million rendered annotation files per quick run (rows x delimiter styles x comment "
+            "configurations x line endings x StringIO/path/handle) for all ten loaders are loaded and compared "
+            "bit-exactly (struct.pack) with an independently built expected structure; pattern files by an explicit "
+            "line-level state machine explored to depth 5 (7); every well-formed file x every row x {delete, add, "
+            "replace a field, blank row} must raise ValueError naming the row; convention violations must warn.",
+            "Star design over field alphabets (one field varies at a time); numbering base of the ragged loader "
+            "left open (property says 'naming the row'); extra columns in pattern note lines tolerated.",
+            "exhaustive single-fault enumeration over files + bounded exhaustive enumeration of well-formed files "
+            "against an independent parser model"),
 }
 
 NOT_YET = {}
